@@ -891,13 +891,12 @@ impl WmoParser {
         &self,
         chunks: &HashMap<ChunkId, Chunk>,
         reader: &mut R,
-        version: WmoVersion,
+        _version: WmoVersion,
         header: &WmoHeader,
     ) -> Result<Option<String>> {
-        // Skybox was introduced in WotLK
-        if !version.supports_feature(WmoFeature::SkyboxReferences) {
-            return Ok(None);
-        }
+        // The expansion cannot be told from MVER (17 from Classic through MoP is always
+        // read as Classic), so gating on the version would drop every skybox; the flag
+        // and the MOSB chunk decide.
 
         // Check if this WMO has a skybox
         if !header.flags.contains(WmoFlags::HAS_SKYBOX) {
